@@ -83,7 +83,13 @@ func (g *j5Gen) entityPlan(pkg string, k *j5Known, style int, nWords int) *jEnti
 		if i > 0 {
 			name = "partId"
 		}
-		keys = append(keys, fld(name, keyFmt().with(func(t *jT) { t.Primary = pB(true) })))
+		keys = append(keys, fld(name, keyFmt().with(func(t *jT) {
+			t.Primary = pB(true)
+			// a primary key may at the same time be the tenant key (primary / foreign exclude each other)
+			if rng.Intn(4) == 0 {
+				t.Tenant = "org"
+			}
+		})))
 	}
 	if rng.Intn(2) == 0 {
 		keys = append(keys, fld("tenantId", keyFmt().with(func(t *jT) { t.Tenant = "org" })))
